@@ -605,8 +605,8 @@ func stopPlans(l *Log, start Pos, r *rand.Rand, stride int) []AttemptPlan {
 func modeC05(e *Env) {
 	cfgs := allCfgs()
 	id := 0
-	nlogs := e.N(2, 16)
-	reps := e.N(1, 3)
+	nlogs := e.N(2, 12)
+	reps := e.N(1, 2)
 	for li := 0; li < nlogs; li++ {
 		gp := smallGP()
 		l := GenLog(e.R, cfgs[e.R.Intn(len(cfgs))], gp, nil)
